@@ -99,6 +99,84 @@ func c20dump(dir string) (string, error) {
 	return sb.String(), nil
 }
 
+// c20effect says whether the effect of an acknowledged update is in what a restart would load (an expectation of
+// its own, not a comparison of the implementation with itself): "" if it is, else what is missing.
+func c20effect(dir string, o c20op) string {
+	switch o.Store {
+	case "board":
+		fn, err := verifhooks.NewFlatNews(filepath.Join(dir, "MessageBoard.txt"))
+		if err != nil {
+			return "message board does not load: " + err.Error()
+		}
+		_, _ = fn.Seek(0, 0)
+		b, _ := io.ReadAll(fn)
+		if !bytes.HasPrefix(b, []byte(o.Text)) {
+			return fmt.Sprintf("the post is not at the top of the message board file (file starts with %q)", b[:min(len(b), 40)])
+		}
+	case "ban":
+		bf, err := verifhooks.NewBanFile(filepath.Join(dir, "Banlist.yaml"))
+		if err != nil {
+			return "ban list does not load: " + err.Error()
+		}
+		is, until := bf.IsBanned(o.IP)
+		if !is || (o.Perm && until != nil) || (!o.Perm && (until == nil || until.Unix() != o.Unix)) {
+			return fmt.Sprintf("ban of %s (permanent=%v until=%d) is not in the ban file (banned=%v until=%v)", o.IP, o.Perm, o.Unix, is, until)
+		}
+	case "acct":
+		am, err := verifhooks.NewYAMLAccountManager(filepath.Join(dir, "Users"))
+		if err != nil {
+			return "accounts do not load: " + err.Error()
+		}
+		switch o.Op {
+		case "create", "update":
+			var want hlref.Access
+			copy(want[:], o.Access)
+			if a := am.Get(o.Login); a == nil || a.Name != o.Name || hlref.Access(a.Access) != want.Defined() {
+				return fmt.Sprintf("account %q after %s: %+v", o.Login, o.Op, a)
+			}
+		case "rename":
+			if a := am.Get(o.NewLogin); a == nil || a.Name != o.Name || am.Get(o.Login) != nil {
+				return fmt.Sprintf("after renaming %q to %q: new %+v, old still present: %v", o.Login, o.NewLogin, a, am.Get(o.Login) != nil)
+			}
+		case "delete":
+			if am.Get(o.Login) != nil {
+				return fmt.Sprintf("deleted account %q is still loaded", o.Login)
+			}
+		}
+	case "news":
+		tn, err := verifhooks.NewThreadedNewsYAML(filepath.Join(dir, "ThreadedNews.yaml"))
+		if err != nil {
+			return "threaded news does not load: " + err.Error()
+		}
+		cats := tn.ThreadedNews.Categories
+		switch o.Op {
+		case "bundle", "category":
+			if _, ok := cats[o.Name]; !ok {
+				return fmt.Sprintf("new %s %q is not in the news file", o.Op, o.Name)
+			}
+		case "post":
+			found := false
+			for _, a := range cats[o.Path[0]].Articles {
+				if a.Title == o.Title && a.Data == o.Body {
+					found = true
+				}
+			}
+			if !found {
+				return fmt.Sprintf("posted article %q is not in category %q of the news file", o.Title, o.Path[0])
+			}
+		case "delart":
+			if _, ok := cats[o.Path[0]].Articles[o.ID]; ok {
+				return fmt.Sprintf("deleted article #%d is still in category %q", o.ID, o.Path[0])
+			}
+		case "delitem":
+			if _, ok := cats[o.Path[0]]; ok {
+				return fmt.Sprintf("deleted item %q is still in the news file", o.Path[0])
+			}
+		}
+	}
+	return ""
+}
+
 func copyDir(src, dst string) error {
 	return filepath.Walk(src, func(p string, info os.FileInfo, err error) error {
 		if err != nil {
@@ -308,9 +386,12 @@ func c20prop(ev *evid.Rec) func(rt *rapid.T) {
 		d0 := filepath.Join(scratch, "d0")
 		c20fixture(d0)
 		js := func(o c20op) string { b, _ := json.Marshal(o); return string(b) }
-		for _, o := range ops[:n-1] {
+		for i, o := range ops[:n-1] {
 			if out, err := exec.Command(helper, d0, js(o)).CombinedOutput(); err != nil || !bytes.Contains(out, []byte("ACK")) {
 				rt.Fatalf("harness: prefix update %s failed: %v %s", js(o), err, out)
+			}
+			if miss := c20effect(d0, o); miss != "" {
+				rt.Fatalf("store=%s history=%s: update %d was acknowledged and the process ended normally, but a restart would not see it: %s", store, opsDesc(ops[:i+1]), i+1, miss)
 			}
 		}
 		last := js(ops[n-1])
@@ -326,6 +407,9 @@ func c20prop(ev *evid.Rec) func(rt *rapid.T) {
 		newState, err := c20dump(dn)
 		if err != nil {
 			rt.Fatalf("state after the complete update does not load: %v", err)
+		}
+		if miss := c20effect(dn, ops[n-1]); miss != "" {
+			rt.Fatalf("store=%s history=%s: the last update was acknowledged and the process ended normally, but a restart would not see it: %s", store, opsDesc(ops), miss)
 		}
 		dt := filepath.Join(scratch, "dt")
 		must(copyDir(d0, dt))
